@@ -1,6 +1,8 @@
 (* C18 — Collection reasoning aggregates obey their counting laws. *)
 From Coq Require Import List Arith ZArith Bool Permutation.
 From DC Require Import Common.SpecF64 Collections.Model Collections.Laws.
+From DC Require Collections.Percent.
+From Coq Require Import SpecFloat.
 Import ListNotations.
 
 (* every filter returns exactly the members whose predicate holds, as many as the count reports *)
@@ -65,6 +67,21 @@ Theorem C18_verify_one_touches_only_its_member : forall l i d j,
   if j =? i then option_map (fun a => fst (verify a d)) (nth_error l j) else nth_error l j.
 Proof. exact verify_one_members. Qed.
 
+(* "equals 100 exactly when all members satisfy the predicate", for EVERY collection size a usize can hold (not a bounded
+   evaluation): binary64 x / x = 1 for every finite non-zero x needs the specification of IEEE division, which is Flocq's
+   (Bdiv_correct); Flocq's operations are those of Coq.Floats.SpecFloat on which the model is written.  These two theorems are
+   the only ones of the development that depend on axioms: the classical real-number axioms of the standard library that Flocq
+   is built on (listed by Print Assumptions below and in the trusted base of the evidence) *)
+Theorem C18_all_satisfy_gives_exactly_100 : forall n,
+  1 <= n -> (Z.of_nat n <= 2 ^ 64)%Z -> percent100 (repeat true n) = f_hundred.
+Proof. exact Percent.percent_all_true_is_100. Qed.
+
+Theorem C18_none_satisfies_gives_exactly_0 : forall n,
+  1 <= n -> (Z.of_nat n <= 2 ^ 64)%Z -> percent100 (repeat false n) = S754_zero false.
+Proof. exact Percent.percent_none_true_is_0. Qed.
+
+Print Assumptions C18_all_satisfy_gives_exactly_100.
+Print Assumptions C18_none_satisfies_gives_exactly_0.
 Print Assumptions C18_filter_matches_count.
 Print Assumptions C18_filter_membership.
 Print Assumptions C18_complementary_filters_partition.
